@@ -410,7 +410,11 @@ where
             }
             // Only the indentation and the line terminator are not a part of the path.
             // Leading or trailing whitespace of any other kind belongs to the file name.
-            let escaped_path = path_str.strip_suffix('\n').unwrap_or(path_str);
+            // A path line without the line terminator means the report has been cut off in
+            // the middle of that line, so the path may be incomplete.
+            let escaped_path = path_str.strip_suffix('\n').ok_or_else(|| {
+                Error::new(ErrorKind::UnexpectedEof, "Unexpected end of file.")
+            })?;
             let escaped_path = escaped_path.strip_suffix('\r').unwrap_or(escaped_path);
             let escaped_path = match escaped_path.strip_prefix("    ") {
                 Some(p) if !p.is_empty() => p,
